@@ -322,6 +322,11 @@ def run(ctx):
     for (scn, desc, reqver, o, reqb) in sess:
         if scn in ("generated", "oversize", "unsupported-version"):
             emitted.setdefault(reqb, ("session-request", None))
+    ct = client_transport_frames(ctx.tier)
+    for what, b in ct:
+        emitted.setdefault(b, (what, None))
+    cov["client_transport_requests"] = len(ct)
+    cov["client_transport_sizes_multiple_of_1024"] = sum(1 for _, b in ct if len(b) % 1024 == 0)
     order = list(emitted.items())
     lines = [json.dumps({"op": "parse", "hex": b.hex()}) for b, _ in order]
     # session responses: always parsed with the envelope predicate (also when the same bytes occur twice)
@@ -393,6 +398,61 @@ def run(ctx):
     import e2e_hook
     e2e_hook.run(ctx, ["c02"])
     ctx.coverage["wall_total_s"] = round(time.time() - t0, 1)
+
+
+def client_transport_frames(tier):
+    """What the CLIENT puts on the wire, through its real transport (`KMIPProtocol.write` on a recording socket): Register
+    requests of opaque objects whose encoded size runs through every multiple of 8 from under 1 KiB to over 4 KiB (so
+    through every multiple of the transport's 1024-byte buffer, and its neighbours), under three versions.
+    -> [(what, all bytes handed to send/sendall for ONE operation)]"""
+    from kmip.pie.client import ProxyKmipClient
+    from kmip.pie import objects as po
+    from kmip.core import enums
+    from kmip.services.kmip_protocol import KMIPProtocol
+    import impl_client as ICL
+
+    class RecSock(object):
+        def __init__(self):
+            self.sent = b""
+            self.reply = []
+
+        def _take(self, data):
+            self.sent += bytes(data)
+            if not self.reply and len(self.sent) >= 8 and len(self.sent) >= 8 + int.from_bytes(self.sent[4:8], "big"):
+                self.reply = [self.answer]
+
+        def sendall(self, data):
+            self._take(data)
+
+        def send(self, data):
+            self._take(data)
+            return len(data)
+
+        def recv(self, n):
+            if not self.reply:
+                return b""
+            c = self.reply[0]
+            if len(c) <= n:
+                self.reply.pop(0)
+                return c
+            self.reply[0] = c[n:]
+            return c[:n]
+    out = []
+    step = 8 if tier != "quick" else 8
+    for version in (12, 14, 20):
+        for n in range(840, 4300, step):
+            c = ProxyKmipClient(kmip_version=ICL.VERSIONS[version])
+            c._is_open = True
+            sock = RecSock()
+            sock.answer = ICL.encode_response(version, [ICL.build_response_item("register", {
+                "echo": "same", "status": 0, "reason": None, "message": None, "payload": {"uid": "7"}}, version)])
+            c.proxy.protocol = KMIPProtocol(sock)
+            try:
+                c.register(po.OpaqueObject(b"\x5a" * n, enums.OpaqueDataType.NONE))
+            except Exception:
+                pass
+            out.append(("client-transport:register@%d:%d" % (version, len(sock.sent)), sock.sent))
+    return out
 
 
 def check_parsed(ctx, m, b, what):
